@@ -110,6 +110,39 @@ def search(ck, tier, seed):
                                        "tail_bound %g %s inputs %s -> %s / %s" % (B, dtype, vals, r[1][0].tolist(), r[1][1].tolist()), case)
 
 
+def integer_bounds(ck, tier, seed):
+    """float32 inputs exactly on (and one ulp inside) the two ends of [-B, B] and of non-symmetric integer boxes, for many integer
+    B: a rescaling whose constants round the wrong way sends an end point just outside [0, 1] (bin index -1 or K)"""
+    Bs = range(1, 129) if tier == "quick" else range(1, 1025)
+    inf = torch.tensor(math.inf)
+    for fam in sh.FAMILIES:
+        g = tgen(seed, "c17-int", fam)
+        params_t = sh.gen_params(fam, 10 if fam == "linear" else 5, True, "normal", g, dtype=torch.float32)
+        params_b = sh.gen_params(fam, 10 if fam == "linear" else 5, False, "normal", g, dtype=torch.float32)
+        for B in Bs:
+            b = torch.tensor(float(B))
+            x = torch.stack([-b, torch.nextafter(-b, inf), torch.nextafter(b, -inf), b])
+            for inverse in (False, True):
+                r = sh.call(fam, inverse, x, params_t, tail_bound=float(B))
+                ck.case(("c17-int-tails", fam, B, inverse), nontrivial=True)
+                if r[0] != "ok" or not bool(torch.isfinite(r[1][0]).all() and torch.isfinite(r[1][1]).all()):
+                    ck.finding("domain:tail-bound-input-fails:%s:%s:%s" % (fam, "inverse" if inverse else "forward", r[1] if r[0] != "ok" else "non-finite"),
+                               "float32, tail_bound %d, inputs %s: %s" % (B, x.tolist(), r[1:] if r[0] != "ok" else r[1][0].tolist()),
+                               {"search": "integer-tail-bounds", "family": fam, "tail_bound": B, "inverse": inverse})
+                    break
+        for lo, hi in ((-23.0, 10.0), (-5.0, 1.0), (-7.0, 3.0), (3.0, 11.0), (-100.0, 7.0), (0.1, 0.3), (-13.0, -6.0)):
+            box = (lo, hi, lo, hi)
+            l, h = torch.tensor(lo), torch.tensor(hi)
+            x = torch.stack([l, torch.nextafter(l, inf), torch.nextafter(h, -inf), h])
+            for inverse in (False, True):
+                r = sh.call(fam, inverse, x, params_b, box=box)
+                ck.case(("c17-int-box", fam, lo, hi, inverse), nontrivial=True)
+                if r[0] != "ok" or not bool(torch.isfinite(r[1][0]).all() and torch.isfinite(r[1][1]).all()):
+                    ck.finding("domain:in-domain-rejected:%s:%s:%s" % (fam, "inverse" if inverse else "forward", r[1] if r[0] != "ok" else "non-finite"),
+                               "float32, box [%g, %g], inputs on / next to the ends: %s" % (lo, hi, r[1:] if r[0] != "ok" else r[1][0].tolist()),
+                               {"search": "integer-boxes", "family": fam, "box": box, "inverse": inverse})
+
+
 def run(tier, seed):
     ck = Check("C17", tier, seed, areas=["splines", "nonlin"],
                gen_groups=["Nonlin", "SplineRQ", "SplineLinear", "SplineQuadratic", "SplineCubic", "Utils"])
@@ -122,6 +155,7 @@ def run(tier, seed):
     if ck.have_driver("splines"):
         splines_corr.correspondence(ck, ck.driver("splines"), tier, seed)
     search(ck, tier, seed)
+    integer_bounds(ck, tier, seed)
     return ck.finish()
 
 
